@@ -33,6 +33,12 @@ type c01Hist struct {
 	byzCmd                          uint64
 	fast                            bool
 	tsigs                           int
+	// outside: set when an honest Fast-HotStuff replica voted on an aggregate QC one of whose reported
+	// certificates it could not resolve (it does not hold the certified block). The code skips such
+	// reports; the abstract model's vote guard speaks about every existing certified report, so from
+	// here on the history is outside the model: it is validated up to this point only (the ledger
+	// oracle still applies to all of it).
+	outside string
 }
 
 func (h *c01Hist) id(x hotstuff.Hash) uint64 {
@@ -73,6 +79,9 @@ func (h *c01Hist) isByzID(id hotstuff.ID) bool {
 }
 
 func (h *c01Hist) emit(term, desc string) {
+	if h.outside != "" {
+		return
+	}
 	h.events = append(h.events, term)
 	h.evDesc = append(h.evDesc, desc)
 }
@@ -105,6 +114,18 @@ func (h *c01Hist) observe(nd *wNode) {
 				h.votes++
 				honestVotes = append(honestVotes, len(h.events))
 				if h.fast {
+					if a, ok := w.aggOf[bh]; ok && a != nil && h.outside == "" {
+						if voter := w.nodes[s.node]; voter != nil {
+							for id, q := range a.QCs() {
+								if _, real := w.blocks[q.BlockHash()]; !real || q.BlockHash() == hotstuff.GetGenesis().Hash() {
+									continue
+								}
+								if _, have := voter.blockchain.LocalGet(q.BlockHash()); !have {
+									h.outside = fmt.Sprintf("replica %v voted for #%d on an aggregate QC whose report by %d (QC of #%d) it cannot resolve: it does not hold that block", s.node, h.id(bh), id, h.id(q.BlockHash()))
+								}
+							}
+						}
+					}
 					h.emit(fmt.Sprintf("FVote %d %d %s", s.node.ReplicaID, h.id(bh), h.aggTerm(bh)), fmt.Sprintf("replica %v signs vote for #%d %s", s.node, h.id(bh), h.aggDesc(bh)))
 				} else {
 					h.emit(fmt.Sprintf("EVote %d %d @LOCK@", s.node.ReplicaID, h.id(bh)), fmt.Sprintf("replica %v signs vote for #%d", s.node, h.id(bh)))
@@ -713,6 +734,10 @@ func TestVerifC01(t *testing.T) {
 		v.CountN("timeout_signs", h.stops)
 		v.CountN("unknown_signs", h.unknownSigns)
 		v.CountN("go_panics", len(h.w.panics))
+		if h.outside != "" {
+			v.Count("fhist_validated_only_up_to_an_unresolvable_aggqc_report")
+			meta["validated_prefix_only"] = h.outside
+		}
 		v.Count("hist_" + cons + fmt.Sprintf("_n%d_f%d_%s", n, len(byzAll), tag))
 		if spec.crypto != "" {
 			v.Count("scheme_" + spec.crypto)
